@@ -1,4 +1,5 @@
 pub mod c01;
+pub mod c02;
 pub mod c03;
 pub mod c04;
 pub mod c12;
@@ -11,6 +12,7 @@ pub fn dispatch(args: &Args, rep: &mut Report) -> bool {
     match args.engine.as_str() {
         "noop" => {}
         "c01" => c01::run(args, rep),
+        "c02" => c02::run(args, rep),
         "c03" => c03::run(args, rep),
         "c04" => c04::run(args, rep),
         "c12" => c12::run(args, rep),
